@@ -416,6 +416,22 @@ def fiberQueueMonitor (cfg : QueueHist.Cfg) (lines : List String) : Option Strin
   let notes := lines.filterMap (fun l => (parseLine l).bind noteOfRaw)
   QueueHist.check cfg (QueueHist.opsOf notes)
 
+/-- did every `call` note get its `ret` (i.e. the run completed)? -/
+def allReturned (lines : List String) : Bool :=
+  let rec go (pend : List Nat) : List String → Bool
+    | [] => pend.isEmpty
+    | l :: ls =>
+      match parseLine l with
+      | some r =>
+        if r.kind = "note" then
+          match r.args.head? with
+          | some "call" => go (r.fiber :: pend) ls
+          | some "ret" => go (pend.erase r.fiber) ls
+          | _ => go pend ls
+        else go pend ls
+      | none => go pend ls
+  go [] lines
+
 def kindOf : List String → Kind × Nat
   | ["chan", "b", c] => (.bounded, c.toNat?.getD 0)
   | ["chan", "u", _] => (.unbounded, 0)
@@ -429,7 +445,7 @@ def drive (lines : List String) : IO UInt32 := do
   -- all sends complete ⇒ every message must have been received (the receiver's script
   -- receives as many as are sent); FIFO is promised per sender for the multi-sender kinds
   let cfg : QueueHist.Cfg :=
-    { disc := .fifo, capacity := cap, drained := true, checkEmpty := false, perProducerFifo := true }
+    { disc := .fifo, capacity := cap, drained := allReturned body, checkEmpty := false, perProducerFifo := true }
   report "Chan" v (fiberQueueMonitor cfg body)
 
 end LibfiberVerif.Chan
